@@ -405,6 +405,38 @@ Lemma sqlite_never_binds_null o :
   end.
 Proof. destruct o; cbn; auto; try split; discriminate. Qed.
 
+(* 5. the models (and theorems) are about ONE request per call. The backends configure the AWS
+   SDK retryer, which re-sends a write that was answered 5xx. If the server had applied it:
+   (a) the re-sent request is refused: the call fails although it took effect (= Unknown);
+   (b) if another client restored the predecessor value in between (A -> B -> A), a by-value
+       condition holds again, the write is applied a second time and the call succeeds: the
+       history (create A; c1: replace A->B ok over [3,8]; c2: replace B->A ok over [5,6];
+       fetch = B) has no linearization. (Observed on the real backends by harness/lock
+       -mode=retry; excluded for sunlight because checkpoint values never repeat.) *)
+Definition retry_s0 : dy_state := [(idA, (vA, []))].
+Definition retry_h : dy_handle := {| dy_id := idA; dy_body := Some vA |}.
+Definition retry_hB : dy_handle := {| dy_id := idA; dy_body := Some vB |}.
+Definition retry_aba_history : history :=
+  [ (Create idA vA, 1, 2, Ok); (Replace idA vA vB, 3, 8, Ok); (Replace idA vB vA, 5, 6, Ok);
+    (Fetch idA, 9, 10, Val vB) ].
+
+Theorem sdk_retry_refuted :
+  (* (a) *)
+  (let s1 := fst (exec dynamo retry_s0 (CReplace retry_h (Some vB)) 1) in
+   snd (exec dynamo s1 (CReplace retry_h (Some vB)) 1) = CRefused /\ lookup (dy_abs s1) idA = Some vB) /\
+  (* (b) *)
+  (let s1 := fst (exec dynamo retry_s0 (CReplace retry_h (Some vB)) 1) in
+   let '(s2, r2) := exec dynamo s1 (CReplace retry_hB (Some vA)) 1 in
+   let '(s3, r3) := exec dynamo s2 (CReplace retry_h (Some vB)) 1 in
+   r2 = CReplaced {| dy_id := idA; dy_body := Some vA |} /\
+   r3 = CReplaced {| dy_id := idA; dy_body := Some vB |} /\
+   lookup (dy_abs s3) idA = Some vB /\
+   ~ linearizable reg_step_weak retry_aba_history).
+Proof.
+  split; [vm_compute; auto|]. vm_compute exec. repeat split.
+  intro H. apply linearizable_weak_b_complete in H. vm_compute in H. discriminate.
+Qed.
+
 (* ================= non-vacuity ================= *)
 (* a schedule with three clients, overlapping calls, a lost reply, a dropped request, a reopen
    and a call that never returns; empty and NUL-containing values *)
